@@ -12,6 +12,8 @@ import VarlinkProofs.Lemmas.Frame
 import VarlinkProofs.Lemmas.Json
 import VarlinkProofs.Lemmas.Wire
 import VarlinkProofs.Lemmas.WireWf
+import Varlink.Extracted.Code
+import Varlink.ExpectedCode
 namespace Varlink.C03
 open Varlink
 
@@ -165,5 +167,11 @@ def bigNum : JVal := .obj (.cons (str "n") (.num (str "1234567890123456789012345
 example : bigNum.wf = true ∧ bigNum.depth < maxDepth := by decide
 example : bigNum ≠ .null := by simp [bigNum]
 example : expectedReplies [bigNum, .obj .nil, bigNum] = [(bigNum, true), (.obj .nil, true), (bigNum, false)] := rfl
+
+/-- **Tie to the source**: the declarations of /repo that this property's model transliterates
+    (`Extracted.codeNames_C03`) have, in the current working tree, exactly the fingerprints of the code the
+    model was validated against. Any change to them breaks this obligation; the check then searches the
+    correspondence streams for an input on which the changed code violates the property. -/
+theorem modelled_code_unchanged : Varlink.Extracted.code_C03 = Varlink.ExpectedCode.code_C03 := by decide
 
 end Varlink.C03
